@@ -20,6 +20,7 @@ type Step struct {
 	Spec   []byte `json:"spec"`
 	Client bool   `json:"client,omitempty"`
 	NoAPI  bool   `json:"noAPI,omitempty"`
+	NoDNE  bool   `json:"noDNE,omitempty"` // -donotedit=false
 }
 
 // Tree is the canonical content of a directory: relative path -> sha256 ("dir" for directories).
@@ -81,7 +82,7 @@ func RunHistory(j *Job) *HistResult {
 				outcome = "error: load: " + err.Error()
 				return
 			}
-			g := goag.Generator{GenClient: st.Client, GenAPIHandler: !st.NoAPI, DoNotEdit: true}
+			g := goag.Generator{GenClient: st.Client, GenAPIHandler: !st.NoAPI, DoNotEdit: !st.NoDNE}
 			if err := g.Generate(sw, j.OutDir, "gen", st.Spec, "openapi.yaml", "", generator.Config{}); err != nil {
 				outcome = "error: " + err.Error()
 			}
